@@ -62,6 +62,11 @@ CHECKS = {
         technique="Lean 4 proof of the fallback path (SsbScript round trip theorem ESV.C07.ssbscript_roundtrip) + exploration of totality on generated well-formed routine sets with op-for-op comparison of every fallback through the real compiler",
         text="Proof: the fallback text is the SsbScript decompiler's output; its exactness (compile(decompile x) reproduces x op for op) and the absence of exceptions on well-formed input are kernel-checked theorems over all routine sets. Exploration: that convert() answers at all (Python exception flow through igraph-based passes) cannot be a theorem here; it is explored on compiler-shaped and random well-formed routine sets (irreducible loops, jumps into blocks, jump-only routines), and each fallback produced is checked for the marker line and compiled back with the real ExplorerScript compiler.",
         note=COMMON_NOTE + "Totality of the structured path is explored, not proved."),
+    "C09": dict(
+        level="other", design="4/C09",
+        technique="Lean 4 proof of the writer protocol (line accounting and entry positions for all call sequences) tied to the code by replaying every recorded real call sequence; per-input validation of op-to-statement attribution through recompilation and the proven checker",
+        text="Proof (K3): for every sequence of writer calls the line counter equals 1 + newlines written (also with multi-line strings), and an entry recorded before a statement names the 0-based line and the column where its text begins (ESV.C09.writer_line_inv, writer_entry_pos, writer_entry_inline_pos); the real decompilers' recorded call sequences are replayed through the Lean writer on every run and must give the identical text and map. Validation per input: keys are input offsets, entries sit at statement starts, every printed op has an entry, and after compiling the emitted text the op related to it by the proven checker is on the same line.",
+        note=COMMON_NOTE + "Which op a statement belongs to is decided by unmodelled graph passes: validated per explored input. The compile-time map of the emitted text is the reference (C08)."),
     "C13": dict(
         level="translation_validation", design="4/C13",
         technique="per-input validation: decidable predicates (no jump statement, operations printed exactly once) on the parsed decompiler output + Lean kernel-checked behavioural validation",
